@@ -142,4 +142,31 @@ def run(ctx):
                         '%s: keyword "%s" is mapped to variant `%s`; expected `%s::%s` (the variant named after the '
                         'keyword)' % (f.name, p['text'], b['f']['p'], segs[-2], want))
     r8.floor('keyword_to_variant_arms', r8.instances, 80)
+    # sibling productions `F` and `F_without_X` (the code's own naming): when both are ordered choices, the second offers exactly the
+    # alternatives of the first minus those that X names — an alternative missing from only one of the two lists is accepted in one context
+    # and rejected in the other (a directive that the preprocessor's list knows and the trivia list does not is a parse error between tokens)
+    def _arm_refs(ir):
+        if not isinstance(ir, dict) or ir.get('op') != 'alt':
+            return None
+        out = []
+        for a_ in ir['arms']:
+            while a_.get('op') in ('map', 'terminated', 'preceded'):
+                a_ = a_['p']
+            out.append(a_.get('name') if a_.get('op') == 'ref' else None)
+        return out
+    for w_ in sorted(g.fns):
+        base_, sep_, x_ = w_.partition('_without_')
+        if not sep_ or base_ not in g.fns:
+            continue
+        ra_, rb_ = _arm_refs(g.fns[base_].ir), _arm_refs(g.fns[w_].ir)
+        if ra_ is None or rb_ is None or None in ra_ or None in rb_ or w_ in ra_:
+            continue
+        res.inst('sibling-list:%s' % w_, {'base': base_, 'excludes': x_})
+        only_base = [r_ for r_ in ra_ if r_ not in rb_]
+        only_wo = [r_ for r_ in rb_ if r_ not in ra_]
+        stray = [r_ for r_ in only_base if x_ not in r_]
+        if stray or only_wo:
+            res.fail('%s:%s:sibling-list-differs' % (g.crate, w_), '%s/%s:%d' % (g.crate, g.fns[w_].file, g.fns[w_].line),
+                     '%s must offer the alternatives of %s except those about `%s`; missing here: %s; only here: %s — the two contexts accept different sets of items' %
+                     (w_, base_, x_, stray, only_wo))
     return [res, r8]
